@@ -210,6 +210,23 @@ func runParRace(o *Out, _ *rand.Rand, thorough bool) {
 		}
 		opt := nextroute.ParallelSolveOptions{Iterations: c.Solve.Iters, Duration: 20 * time.Second, ParallelRuns: c.Solve.Runs,
 			StartSolutions: c.Solve.Starts, RunDeterministically: c.Solve.Det}
+		if ci%4 == 0 {
+			// the model's lazily filled caches, first used by several goroutines at once — what the un-plan operators
+			// of several solver runs do (they call the same function), without waiting for the runs to collide by chance
+			// (E27: the closest-stops cache was read in front of its lock)
+			var wg sync.WaitGroup
+			for g := 0; g < c.Solve.Runs+1; g++ {
+				wg.Add(1)
+				go func() {
+					defer wg.Done()
+					for _, st := range bt.model.Stops() {
+						_, _ = st.ClosestStops()
+					}
+				}()
+			}
+			wg.Wait()
+			o.Count("lazy-cache-first-use-probes")
+		}
 		sols, _, serr, span := solveAll(bt.model, opt)
 		if span != nil || serr != nil {
 			continue
